@@ -3,7 +3,7 @@ from array import array
 
 from .. import codec_common as cc
 from ..lib import lean
-from ..translate import registry
+from ..translate import registry, registry_lookup
 
 ID = 'C01'
 TARGETS = ['PyIpmi.Props.C01', 'drv_codec']
@@ -20,16 +20,26 @@ RULE = ('for every class of the live registry: Fits assignments (all-zero, all-m
         'fields in place (item / slice assignment, append, extend, pop, insert), plain attribute assignment, '
         'decode_message into the used object.  After every step the bytes of encode_message / pack_message on the '
         'used object must equal those of a FRESH instance carrying the same values (and the Lean model\'s), and '
-        'decode back to them.')
+        'decode back to them.  Completion codes 1..255 (outside Fits, Props/C01.nonok_cc_encoded_and_stops): for every '
+        'response class with fields the real encode_message / pack_message are called with boundary codes '
+        '(01h 7Fh 80h C0h C1h C9h CBh D5h FFh + seeded random) and, for a seeded sample of 8 classes (all of them in '
+        'the thorough tier), with ALL 255 codes, the other fields carrying an in-range assignment; judged: first byte '
+        '= the code, remaining bytes = those of the same assignment under code 0, decoding the bytes into a fresh '
+        'object yields the code and the creation defaults of every later field; compared with the model.  Lookup '
+        'side of the registry: for EVERY registered class registry[name], registry[(netfn, cmd, group)], '
+        'create_message, create_request_by_name / create_response_by_name on its name stem (FooReq <-> FooRsp), '
+        'create_response_message for requests, and the key set of the dict are observed and judged '
+        '(Props/C01.registry_lookup over the regenerated Gen/RegistryLookup.lean).')
 ASSUMPTIONS = [
     'model of msgs/message.py + utils.ByteBuffer is hand-written (lean/PyIpmi/Model/Codec.lean) and tied by this correspondence run',
     'layouts are regenerated from the live registry each run (Gen/Registry.lean); field classes whose encode/decode/create differ from the known base classes abort generation',
-    'round-trip theorem requires completion_code = 0 (a non-OK code stops decoding by design, see C02.cc_stops)',
+    'round-trip theorem requires completion_code = 0 (a non-OK code stops decoding by design, see C02.cc_stops); for '
+    'codes 1..255 the weaker nonok_cc_encoded_and_stops is proved and run (code encoded first, decoding stops at it)',
     'the model is a function of the field values only (a message object has no other state): histories on one real '
     'object are compared step by step with the model applied to the values the caller put last; a conditional field '
     'that is not on the wire has no value to compare after decode_message into a used object',
 ]
-TRUSTED = ['harness/translate/registry.py', 'harness/codec_common.py']
+TRUSTED = ['harness/translate/registry.py', 'harness/translate/registry_lookup.py', 'harness/codec_common.py']
 
 _snap = None
 
@@ -37,6 +47,7 @@ _snap = None
 def translate(ctx):
     global _snap
     _snap = registry.generate()
+    registry_lookup.generate(_snap)
 
 
 def _cases(fields, rng, tier):
@@ -565,17 +576,192 @@ def _registry_facts(ctx, snap):
         ctx.case(('pair', info['name']), nontrivial=False)
 
 
+# ---------------------------------------------------------------------------------------
+# completion codes 1..255 (Props/C01.nonok_cc_encoded_and_stops)
+# ---------------------------------------------------------------------------------------
+CC_BOUNDARY = (0x01, 0x7f, 0x80, 0xc0, 0xc1, 0xc9, 0xcb, 0xd5, 0xff)
+CC_FULL_CLASSES = 8        # quick tier: classes that get all 255 codes (seeded sample)
+
+
+def _refs_field0(fields):
+    """does a length function / predicate read field 0?  (then an assignment made under code 0 is not
+    an assignment under code c; no class of the registry does this)"""
+    for f in fields[1:]:
+        if f.prim[0] == 'varBytes' and f.prim[1] == 0:
+            return True
+        if any(c[1] == 0 for c in _cond_atoms(f.cond)):
+            return True
+    return False
+
+
+def _is_response_layout(info):
+    fs = info['fields']
+    return bool(fs) and fs[0].prim[0] == 'cc' and fs[0].wrap == 'plain'
+
+
+def _judge_cc(ctx, cls, info, mode, vals, model_enc=None, model_dec=None, verbose=False):
+    """vals[0] = ('int', c), c != 0: the code is encoded first, the rest as under code 0, decoding stops at it"""
+    fields, name = info['fields'], info['name']
+    c = vals[0][1]
+    case = {'class': name, 'op': 'nonok-cc', 'mode': mode, 'values': [cc.show(v) for v in vals],
+            'layout': _layout(fields)}
+    real = cc.encode_real(cls, fields, vals)
+    base = cc.encode_real(cls, fields, [('int', 0)] + list(vals[1:]))
+    code_s = 'ok ' + lean.hexs(real[1]) if real[0] == 'ok' else cc.model_tag(real[0])
+    if verbose:
+        print('class %s values %s' % (name, ' '.join(case['values'])))
+        print('  encode_message            : %s' % code_s)
+        print('  same assignment, code 00h : %s' % (_show_out(base)))
+    if model_enc is not None and model_enc != code_s and not (model_enc.startswith('py:') and code_s.startswith('py:')):
+        ctx.disagree('encode-nonok-cc', case, model_enc, code_s)
+    if base[0] != 'ok':
+        ctx.count('nonok-cc:base-encode-raises')          # reported by the assignment stream
+        return
+    if real[0] != 'ok':
+        ctx.violate('C01:nonok-cc:encode-raises',
+                    'encoding %s with completion code %02Xh raises %s (with code 00h it encodes)' % (name, c, real[0]),
+                    case, expected='%02x %s' % (c, lean.hexs(base[1][1:])), observed=real[0])
+        return
+    data = real[1]
+    want = bytes([c]) + base[1][1:]
+    if data != want:
+        ctx.violate('C01:nonok-cc:not-encoded' if data[:1] != want[:1] else 'C01:nonok-cc:disturbs-other-fields',
+                    'completion code %02Xh of %s is not encoded as the first byte followed by the other fields'
+                    % (c, name), case, expected=lean.hexs(want), observed=lean.hexs(data))
+        return
+    try:
+        from pyipmi.msgs.message import pack_message
+        obj = cls()
+        cc.set_values(obj, fields, vals)
+        packed = bytes(bytearray(pack_message(obj)))
+    except Exception as e:  # noqa
+        packed = type(e).__name__
+    if packed != data:
+        ctx.violate('C01:nonok-cc:pack-vs-encode',
+                    'pack_message and encode_message disagree for %s with completion code %02Xh' % (name, c), case,
+                    expected=lean.hexs(data), observed=packed if isinstance(packed, str) else lean.hexs(packed))
+    dec = cc.decode_real(cls, fields, data)
+    stop = [('int', c)] + [cc.canon_dflt(f.dflt) for f in fields[1:]]
+    if verbose:
+        print('  decode_message of them    : %s' % (dec[0] if dec[0] != 'ok' else ' '.join(cc.show(v) for v in dec[1])))
+        print('  code + creation defaults  : %s' % ' '.join(cc.show(v) for v in stop))
+    if dec[0] != 'ok' or dec[1] != stop:
+        ctx.violate('C01:nonok-cc:decode-does-not-stop',
+                    'decoding the encoding of %s with completion code %02Xh does not yield the code and the '
+                    'creation defaults of the later fields' % (name, c), case,
+                    expected=[cc.show(v) for v in stop],
+                    observed=dec[0] if dec[0] != 'ok' else [cc.show(v) for v in dec[1]])
+        return
+    if model_dec is not None:
+        want_m = 'ok 1 ' + ' '.join(cc.show(v) for v in dec[1])
+        if model_dec.strip() != want_m.strip():
+            ctx.disagree('decode-nonok-cc', case, model_dec, want_m)
+
+
+def _run_cc(ctx, drv, rng, idx, cls, info, full):
+    fields = info['fields']
+    if _refs_field0(fields):
+        ctx.count('nonok-cc:class-reads-field-0')
+        return
+    codes = list(range(1, 256)) if full else sorted(set(CC_BOUNDARY) | set(rng.randrange(1, 256) for _ in range(3)))
+    modes = ('zero', 'max', 'boundary', 'random', 'alt0', 'alt1', 'top')
+    cases = []
+    for k, c in enumerate(codes):
+        mode = modes[k % len(modes)]
+        vals = cc.assignment(fields, rng, mode)
+        vals[0] = ('int', c)
+        cases.append((mode, vals))
+    encs = drv.ask_many(['enc %d %s' % (idx, ' '.join(cc.show(v) for v in vals)) for _, vals in cases])
+    decs = iter(drv.ask_many(['dec %d %s' % (idx, e[3:]) for e in encs if e.startswith('ok ')]))
+    for (mode, vals), me in zip(cases, encs):
+        md = next(decs) if me.startswith('ok ') else None
+        ctx.case((info['name'], 'nonok-cc', tuple(cc.show(v) for v in vals)))
+        ctx.count('nonok-cc:' + ('all-255-codes' if full else 'boundary-codes'))
+        ctx.count('nonok-cc:code:%s' % ('01-7F' if vals[0][1] < 0x80 else '80-BF' if vals[0][1] < 0xc0 else 'C0-FF'))
+        _judge_cc(ctx, cls, info, mode, vals, me, md)
+
+
+# ---------------------------------------------------------------------------------------
+# the lookup side of the registry (Props/C01.registry_lookup)
+# ---------------------------------------------------------------------------------------
+LOOKUPS = (
+    ('byName', 'registry[%(name)r]', 'self'),
+    ('byId', 'registry[(%(netfn)d, %(cmd)d, %(group)s)]', 'self'),
+    ('created', 'create_message(%(netfn)d, %(cmd)d, %(group)s)', 'self'),
+    ('requestOf', 'create_request_by_name(%(stem)r)', 'req'),
+    ('responseOf', 'create_response_by_name(%(stem)r)', 'rsp'),
+    ('responseTo', 'create_response_message(%(name)s())', 'rsp-of-req'),
+)
+
+
+def _lookup_facts(ctx, snap, verbose_for=None):
+    """Python-side oracle for the lookup clauses: the class a lookup returns is judged by its NAME and its
+    id attributes (not by its position in the listing)."""
+    lk = registry_lookup.lookups(snap)
+    names = [info['name'] for _, info in snap]
+    for i, (cls, info) in enumerate(snap):
+        name = info['name']
+        stem = name[:-3]
+        d = {'name': name, 'stem': stem, 'netfn': info['netfn'], 'cmd': info['cmd'], 'group': info['group']}
+        for key, fmt, role in LOOKUPS:
+            if role == 'rsp-of-req' and not name.endswith('Req'):
+                continue
+            want = {'self': name, 'req': stem + 'Req', 'rsp': stem + 'Rsp', 'rsp-of-req': stem + 'Rsp'}[role]
+            j = lk[key][i]
+            got = names[j] if j < len(names) else None
+            ok = got == want
+            if ok and role != 'self':
+                # the class found by NAME must also be the id counterpart (same command / group, netfn +-1)
+                o = snap[j][1]
+                nf = info['netfn'] - info['netfn'] % 2 + (0 if role == 'req' else 1)
+                ok = (o['netfn'], o['cmd'], o['group']) == (nf, info['cmd'], info['group'])
+                if not ok:
+                    got = '%s registered under netfn %d cmd %d group %s' % (got, o['netfn'], o['cmd'], o['group'])
+            if verbose_for == (name, key):
+                print('  %s -> %s   (expected %s)' % (fmt % d, got, want))
+            ctx.case(('lookup', key, name), nontrivial=False)
+            ctx.count('lookup:' + key)
+            if not ok:
+                ctx.violate('C01:lookup:%s:%s' % (key, name),
+                            '%s returns %s, not %s' % (fmt % d, got or 'no registered class (or raises)', want),
+                            {'class': name, 'op': 'lookup', 'lookup': key},
+                            expected=want, observed=got)
+    # the key set: one name key and one id key per class, every id key = the ids of the class stored there
+    seen = {}
+    for nf, cmd, grp, j in lk['idKeys']:
+        o = snap[j][1] if j < len(snap) else None
+        if o is None or (o['netfn'], o['cmd'], o['group']) != (nf, cmd, grp):
+            who = o['name'] if o else 'an unlisted class'
+            ctx.violate('C01:lookup:stale-id-key:%s' % who,
+                        'the registry maps (%s, %s, %s) to %s, whose ids are different' % (nf, cmd, grp, who),
+                        {'class': who, 'op': 'lookup', 'lookup': 'idKeys'},
+                        expected='keys = ids of the stored class', observed=[nf, cmd, grp])
+        seen[j] = seen.get(j, 0) + 1
+    for j, (cls, info) in enumerate(snap):
+        if seen.get(j, 0) != 1:
+            ctx.violate('C01:lookup:id-keys:%s' % info['name'],
+                        '%s is stored under %d id keys' % (info['name'], seen.get(j, 0)),
+                        {'class': info['name'], 'op': 'lookup', 'lookup': 'idKeys'},
+                        expected=1, observed=seen.get(j, 0))
+    ctx.extra['registry_keys'] = {'names': lk['nameKeys'], 'ids': len(lk['idKeys'])}
+
+
 def run(ctx):
     snap = _snap if _snap is not None else registry.snapshot()
     _registry_facts(ctx, snap)
+    _lookup_facts(ctx, snap)
     drv = ctx.driver('drv_codec')
     if int(drv.ask('count')) != len(snap):
         ctx.disagree('registry-size', {}, drv.ask('count'), str(len(snap)))
         return
     rng = ctx.rng('c01')
+    rsp = [i for i, (_, info) in enumerate(snap) if not info['malformed'] and _is_response_layout(info)]
+    cc_full = set(rsp) if ctx.tier != 'quick' else set(ctx.rng('c01-cc-classes').sample(rsp, min(CC_FULL_CLASSES, len(rsp))))
     for idx, (cls, info) in enumerate(snap):
         if info['malformed'] or not info['fields']:
             continue
+        if idx in rsp:
+            _run_cc(ctx, drv, ctx.rng('c01-cc/%s' % info['name']), idx, cls, info, idx in cc_full)
         fields = info['fields']
         cases = _cases(fields, rng, ctx.tier)
         enc_lines = ['enc %d %s' % (idx, ' '.join(cc.show(v) for v in vals)) for _, vals in cases]
@@ -627,6 +813,14 @@ def replay(ctx, v):
     if case.get('op') == 'construct':
         print('construct %s: %s' % (info['name'], info['malformed'] or 'ok'))
         return bool(info['malformed'])
+    if case.get('op') == 'lookup':
+        c2 = ctx.__class__('C01', 'quick', 0)
+        print('lookup %s for %s:' % (case.get('lookup'), info['name']))
+        _lookup_facts(c2, snap, verbose_for=(info['name'], case.get('lookup')))
+        hit = [x for x in c2.violations if x['signature'] == v['signature']]
+        for x in hit:
+            print('  ' + x['what'])
+        return bool(hit)
     if case.get('op') == 'pairing':
         c2 = ctx.__class__('C01', 'quick', 0)
         _registry_facts(c2, snap)
@@ -655,6 +849,11 @@ def replay(ctx, v):
         return bool(c2.violations)
     vals = [cc.parse(t) for t in case['values']]
     c2 = ctx.__class__('C01', 'quick', 0)
+    if case.get('op') == 'nonok-cc':
+        _judge_cc(c2, cls, info, case.get('mode', ''), vals, verbose=True)
+        for x in c2.violations:
+            print('  ' + x['what'])
+        return bool(c2.violations)
     me = v.get('expected') if v['signature'].startswith('C01:wire-format') else None
     real = cc.encode_real(cls, info['fields'], vals)
     print('class %s values %s' % (info['name'], case['values']))
